@@ -360,12 +360,14 @@ pub struct CliCase {
   pub shape: String,
   /// (relative path, data); for file/stdin exactly one entry
   pub files: Vec<(String, Vec<u8>)>,
+  /// other options of create riding along (they must not influence the hashed layout)
+  pub noise: Vec<String>,
 }
 
 impl CliCase {
   pub fn to_json(&self) -> Value {
     json!({
-      "kind": "cli", "p": self.p, "md5": self.md5, "shape": self.shape,
+      "kind": "cli", "p": self.p, "md5": self.md5, "shape": self.shape, "other_options": self.noise,
       "files": self.files.iter().map(|(n, d)| json!({"path": n, "hex": hex(d)})).collect::<Vec<_>>(),
     })
   }
@@ -374,6 +376,7 @@ impl CliCase {
       p: v.get("p")?.as_u64()?,
       md5: v.get("md5")?.as_bool()?,
       shape: v.get("shape")?.as_str()?.to_string(),
+      noise: v.get("other_options").and_then(|a| a.as_array()).map(|a| a.iter().filter_map(|x| x.as_str().map(|s| s.to_string())).collect()).unwrap_or_default(),
       files: v
         .get("files")?
         .as_array()?
@@ -403,7 +406,8 @@ fn gen_cli(rng: &mut Rng) -> CliCase {
     let sz = if rng.chance(1, 5) { rng.range(60_000, 140_000) as usize } else { gen_size(rng, p) };
     files.push(("content".to_string(), rng.bytes(sz)));
   }
-  CliCase { p, md5, shape: shape.to_string(), files }
+  let noise = super::create_noise(rng, &["--md5", "--no-creation-date"]);
+  CliCase { p, md5, shape: shape.to_string(), files, noise }
 }
 
 /// Extract (pieces, [(path components, length, md5)]) from a torrent's info dict.
@@ -447,6 +451,7 @@ fn create_args(c: &CliCase, input: &str) -> Vec<String> {
   if c.md5 {
     a.push("--md5".into());
   }
+  a.extend(c.noise.iter().cloned());
   a
 }
 
